@@ -30,7 +30,7 @@ def run(chk):
   thorough = chk.tier == 'thorough'
   chk.rule = ('behaviours = TLC simulation walks of SymTree.tla with Clone / JsonRoundTrip and every mutator family; '
               'distinct = distinct action sequences; non-trivial = contains at least one copy step that was replayed')
-  symtree_check.model_check(chk, ['C07_quick.cfg'])
+  symtree_check.model_check(chk, ['C07_thorough.cfg' if thorough else 'C07_quick.cfg'])
   hits = {}
   plan = [('C07_sim.cfg', 450, 30), ('C07_sim_obj.cfg', 250, 30)] if not thorough else \
          [('C07_sim.cfg', 5000, 40), ('C07_sim_obj.cfg', 2500, 40)]
